@@ -632,7 +632,7 @@ Definition ascii_oracles : Builtins.oracles :=
      Builtins.o_upper := ascii_upper;
      Builtins.o_lower := ascii_lower;
      Builtins.o_is_letter := fun _ => false;
-     Builtins.o_is_print := fun _ => false;
+     Builtins.o_is_print := fun c => (32 <=? c)%N && (c <=? 126)%N;   (* strconv.IsPrint on ASCII *)
      Builtins.o_parse_float := fun _ => Builtins.PFSyntax;
      Builtins.o_math := fun _ _ => 0%float;
      Builtins.o_rand := fun _ => 0%Z;
@@ -643,6 +643,15 @@ Definition small_int (f : float) : bool :=
   match float_to_Z f with
   | Some z => negb (Builtins.signbit f) && (z <? 1000000)%Z
   | None => false
+  end.
+
+(* fmt.Sprintf is computed by Builtins.sprintf_loop without its oracles when no operand is a
+   number (float formatting) and every string operand is printable ASCII (%q quoting) *)
+Definition fmt_decidable (a : Builtins.farg) : bool :=
+  match a with
+  | Builtins.FNum _ => false
+  | Builtins.FStr x => forallb (fun c => (32 <=? c)%N && (c <=? 126)%N) x
+  | Builtins.FBool _ => true
   end.
 
 Definition pure_builtin (name : str) (args : list loc) : option (M (option loc)) :=
@@ -854,6 +863,54 @@ Definition builtin (name : str) (e : env) (args : list loc) : option (M (option 
   else if name_is name "sqrt" then Some (
     match args with [a] => let* x := load_num a in let* l := alloc (HNum (PrimFloat.sqrt x)) in ret (Some l)
                | _ => crash "sqrt arity" end)
+  else if name_is name "sprintf" then Some (
+    (* sprintf(format, unwrapBasicvalue(args)...): the first argument must hold a string *)
+    match args with
+    | [] => fail (EPanic PkBadArguments)
+    | f :: rest =>
+        let* fv := unwrap_any f in
+        match fv with
+        | HStr fs =>
+            let* fargs := mapM (fun a => let* v := unwrap_any a in
+                                         match v with
+                                         | HNum x => ret (Builtins.FNum x)
+                                         | HStr x => ret (Builtins.FStr x)
+                                         | HBool b => ret (Builtins.FBool b)
+                                         | _ => let* x := show_str a in ret (Builtins.FStr x)
+                                         end) rest in
+            if forallb fmt_decidable fargs then
+              match Builtins.sprintf_loop ascii_oracles (S (List.length fs)) fs fargs with
+              | Some r => let* l := alloc (HStr r) in ret (Some l)
+              | None => fail (ENeedOracle (s_ "fmt.Sprintf"))
+              end
+            else fail (ENeedOracle (s_ "fmt.Sprintf"))
+        | _ => fail (EPanic PkBadArguments)
+        end
+    end)
+  else if name_is name "printf" then Some (
+    (* sprintf(format, unwrapBasicvalue(args)...): the first argument must hold a string *)
+    match args with
+    | [] => fail (EPanic PkBadArguments)
+    | f :: rest =>
+        let* fv := unwrap_any f in
+        match fv with
+        | HStr fs =>
+            let* fargs := mapM (fun a => let* v := unwrap_any a in
+                                         match v with
+                                         | HNum x => ret (Builtins.FNum x)
+                                         | HStr x => ret (Builtins.FStr x)
+                                         | HBool b => ret (Builtins.FBool b)
+                                         | _ => let* x := show_str a in ret (Builtins.FStr x)
+                                         end) rest in
+            if forallb fmt_decidable fargs then
+              match Builtins.sprintf_loop ascii_oracles (S (List.length fs)) fs fargs with
+              | Some r => let* _ := emitE (EvPrint [PStr r]) in none_val
+              | None => fail (ENeedOracle (s_ "fmt.Sprintf"))
+              end
+            else fail (ENeedOracle (s_ "fmt.Sprintf"))
+        | _ => fail (EPanic PkBadArguments)
+        end
+    end)
   else if existsb (str_eqb name) gfx_num_names then Some (
     match args with [a] => let* x := load_num a in let* _ := emitE (EvGfx name [x] []) in none_val
                | _ => crash "gfx arity" end)
@@ -869,7 +926,7 @@ Definition builtin (name : str) (e : env) (args : list loc) : option (M (option 
 
 (* names of builtins that exist in evy but are outside this model *)
 Definition unmodelled_builtins : list str := Eval compute in map s_
-  ["printf"; "sprintf"; "repr"; "clear"; "grid"; "gridn"; "poly";
+  ["repr"; "clear"; "grid"; "gridn"; "poly";
    "ellipse"; "dash"; "font"; "test"]%string.
 
 (* ---------- the evaluator ---------- *)
